@@ -431,12 +431,24 @@ def run(ctx):
             crash_images += 1
             distinct.add(json.dumps([curop["op"], curop["a"], curop["journal"][:r["k"]][-3:], r["dbase"], r["dheight"],
                                      r["mbase"], r["mheight"], r["ranges"]], sort_keys=True))
+    def brief(r):
+        r = dict(r)
+        if "journal" in r:
+            r["journal"] = core.abridge(r["journal"], 8)
+        if "ranges" in r:
+            r["ranges"] = core.abridge(r["ranges"], 3)
+        if "win" in r:
+            r["win"] = core.abridge(r["win"], 6)
+        if "cfg" in r:
+            r["cfg"] = {k: (core.abridge(v, 10) if isinstance(v, list) else v) for k, v in r["cfg"].items()}
+        return r
+
     sample = []
-    for r in rows:
-        if r["ev"] == "Op" and r["op"] == "PruneBlocks" and r["n"] < 40:
-            i = rows.index(r)
-            sample = rows[i:i + 3]
+    for i, r in enumerate(rows):
+        if r["ev"] == "Op" and r["op"] == "PruneBlocks" and 0 < r["n"] < 40 and r.get("audited"):
+            sample = [brief(x) for x in rows[i:i + 3]]
             break
+    sample_s = [brief(x) for x in rows_s[:1]] + [brief(x) for x in rows_s if x["ev"] == "A"][:1]
     coverage = {
         "states": sum(r.distinct for r in exh.values()) + sum(g["distinct"] for g in gstats.values()),
         "transitions": sum(r.generated for r in exh.values()) + sum(g["generated"] for g in gstats.values()),
@@ -452,7 +464,7 @@ def run(ctx):
                 "real store operation into a fresh MemDB and reopening both stores on it; every operation of every "
                 "root-to-leaf path of the act-augmented TMStoreNode graphs is executed on the real stores and EVERY "
                 "prefix of its journal is audited (operations repeated on an identical disk are audited once)",
-        "samples": [core.abridge(sample, 3), core.abridge([r for r in rows_s[:4]], 4)],
+        "samples": [sample, sample_s],
         "exhaustive": True,
         "exhaustive_scope": "the replayed graph models (graph_*): every state of the bounded TMStoreNode graph is reached on "
                             "the real stores and every crash image of every operation on it is audited; the larger exh_* "
